@@ -6,6 +6,7 @@ import (
 	"fmt"
 	"go/token"
 	"go/types"
+	"regexp"
 	"sort"
 	"strings"
 
@@ -859,9 +860,16 @@ func (f *frame) applyContract(in ssa.Instruction, callee *ssa.Function, con *Con
 	env.heap = h
 	resultEnv(env, callee.Signature, rets)
 	for _, c := range con.Ensures {
+		if clauseUsesLabels(c) {
+			continue // states captured inside the callee (at(L, ...)) do not exist for the caller: the clause is not assumed
+		}
 		e.assumeIf(pc, e.evalBool(env, c.Expr))
 	}
 }
+
+var labelUseRe = regexp.MustCompile(`\bat\(`)
+
+func clauseUsesLabels(c *Clause) bool { return labelUseRe.MatchString(c.Src) }
 
 func (f *frame) safetyOr(con *Contract) []string {
 	return f.safety
@@ -1172,7 +1180,7 @@ func (f *frame) dynamicCall(in ssa.Instruction, c *ssa.CallCommon, args []Val, p
 		}
 	}
 	for k := range ghostSorts {
-		if strings.HasPrefix(k, "wr_") || strings.HasPrefix(k, "rd_") {
+		if (strings.HasPrefix(k, "wr_") || strings.HasPrefix(k, "rd_")) && k != "rd_fault" {
 			mods["G."+k] = true // a callback may read from the source or write to a sink it was given
 		}
 	}
@@ -1332,8 +1340,8 @@ func (w *World) instrMods(e *Engine, fn *ssa.Function, ins ssa.Instruction, out 
 				}
 			}
 			for k := range ghostSorts {
-				if strings.HasPrefix(k, "wr_") || strings.HasPrefix(k, "rd_") {
-					out.m["G."+k] = true
+				if (strings.HasPrefix(k, "wr_") || strings.HasPrefix(k, "rd_")) && k != "rd_fault" {
+					out.m["G."+k] = true // rd_fault records the library's own reads only
 				}
 			}
 			return
